@@ -15,7 +15,9 @@ pub fn system_time_to_ntp(time: SystemTime) -> Result<u64> {
     let submicro = duration.subsec_micros();
 
     let seconds_ntp = seconds_utc + 2208988800u64;
-    let fraction = (((submicro as u128) * (1u128 << 32)) / 1000000u128) as u32;
+    // Round the fraction up: `ntp_to_system_time` (and any receiver that truncates) then
+    // recovers exactly `submicro`, instead of losing one microsecond.
+    let fraction = (((submicro as u128) * (1u128 << 32) + 999999u128) / 1000000u128) as u32;
     Ok((seconds_ntp << 32) | (fraction as u64))
 }
 
